@@ -18,7 +18,6 @@ K_SEQ_RANK = 'seq-multirank-dummy-offset'         # KnownSeqRank
 K_SEQ_SHORT = 'seq-section-shorter-than-dummy'    # KnownSeqShort
 K_SEQ_KW = 'seq-keyword-arguments-duplicated'     # KnownSeqKw (source kind)
 K_DD_INTENT = 'dedup-kept-dummy-intent-in'        # KnownDedupIntent
-K_DD_DECL = 'dedup-removed-name-in-declaration'   # KnownDedupDecl
 K_DD_ALIAS = 'dedup-aliased-dummy-written'        # precondition class (non-conforming original), not a finding
 K_SH_LB = 'shape-lower-bound-imported'            # KnownShapeLb
 K_SH_CAP = 'shape-symbol-captured'                # KnownShapeCapture
@@ -26,8 +25,6 @@ K_DT_LB = 'dtype-member-lower-bound-lost'         # KnownDtLb
 K_DT_CLASH = 'dtype-expanded-name-clash'          # KnownDtClash
 K_TB_PASS = 'tbound-pass-not-first'               # KnownTbPass
 K_TB_NOPASS = 'tbound-nopass'                     # KnownTbNopass
-ALL_CLASSES = [K_SEQ_RANK, K_SEQ_SHORT, K_SEQ_KW, K_DD_INTENT, K_DD_DECL, K_SH_LB, K_SH_CAP, K_DT_LB, K_DT_CLASH,
-               K_TB_PASS, K_TB_NOPASS]
 
 
 def h(x):
@@ -153,6 +150,7 @@ def _parse(prog):
 
 
 _CACHE = {}
+_TEXT0 = {}     # fgen text of the untransformed parse (baseline for the syntax check: printer defects belong to C06/C02)
 
 
 def _cached(kind, prog, fn):
@@ -175,6 +173,7 @@ def _real_seq(prog):
     from loki.transformations.sanitise.sequence_associations import do_resolve_sequence_association
     sf = _parse(prog)
     try:
+        _TEXT0[dumps(prog)] = fgen(sf.ir)
         for r in sf.routines:
             do_resolve_sequence_association(r)
         text = fgen(sf.ir)
@@ -188,6 +187,7 @@ def _real_dedup(prog):
     from loki.transformations.routine_signatures import remove_duplicate_args_from_calls
     sf = _parse(prog)
     try:
+        _TEXT0[dumps(prog)] = fgen(sf.ir)
         for r in sf.routines:
             remove_duplicate_args_from_calls(r)
         text = fgen(sf.ir)
@@ -1140,6 +1140,15 @@ def known_src_witnesses():
     return out
 
 
+def corpus_src_requests():
+    from ..core import corpus_lines
+    out = []
+    for l in corpus_lines(PROP):
+        if l.startswith('(src '):
+            out.append(loads(l))
+    return out
+
+
 class C34(Prop):
     id = 'C34'
     title = 'Call-signature rewrites preserve behaviour'
@@ -1204,7 +1213,7 @@ class C34(Prop):
         n_src = {'quick': 5, 'thorough': 80, 'search': 30}.get(tier, 5)
         srcs = [gen_src(rng) for j in range(n_src)]
         cases = [Case([A('src'), A(kind), spec, A('gf')], stream='src-' + kind) for kind, spec in srcs]
-        prefetch_src(self, [c.req for c in cases] + known_src_witnesses())
+        prefetch_src(self, [c.req for c in cases] + known_src_witnesses() + corpus_src_requests())
         for c in cases:
             yield c
 
@@ -1267,9 +1276,13 @@ class C34(Prop):
                 return [Failure(f'{kind}: transformed program behaves differently (interpreter): {d}', cls)]
             runs.append(inp)
         if flag == 'gf' and runs:
-            err = fir.gfortran_syntax_check(text)
+            base = _TEXT0.get(dumps(prog))
+            if len(_TEXT0) > 200:
+                _TEXT0.clear()
+            err = fir.gfortran_syntax_check(text) if (base is not None and fir.gfortran_syntax_check(base) is None) else None
             if err:
-                return [Failure(f'{kind}: gfortran rejects the transformed source printed by fgen: {err[:160]}', cls)]
+                return [Failure(f'{kind}: gfortran rejects the transformed source printed by fgen (the untransformed '
+                                f'fgen text is accepted): {err[:160]}', cls)]
             items = []
             for inp in runs:
                 st = {}
@@ -1291,7 +1304,7 @@ class C34(Prop):
             raise ValueError('unknown source kind')
         cs = SRC_KINDS[kind][1](spec)
         cls = cs[0] if cs else None
-        pre = _SRC_FUT.pop(kind + ' ' + dumps(spec), None)
+        pre = _SRC_FUT.get(kind + ' ' + dumps(spec))
         if pre is None:
             pre = _prepare_src(kind, spec, None)
         if pre[0] == 'exc':
